@@ -7,11 +7,13 @@ import (
 	"encoding/hex"
 	"encoding/json"
 	"fmt"
+	"io"
 	"math/rand"
 	"os"
 	"os/exec"
 	"sort"
 	"strings"
+	"time"
 )
 
 // Case is one protocol line with the implementation's canonical answer.
@@ -26,6 +28,9 @@ type Case struct {
 	// it returns "" when the property holds on this case, else a description of the failure
 	// and (optionally) the id of the known finding whose matcher this failure satisfies.
 	Oracle func() (what string, knownID string)
+	// OracleR is like Oracle but also sees the model's reply line (the driver may append the
+	// independent Lean `Spec.*` answer to the model's answer, e.g. "<model> | spec: <spec>").
+	OracleR func(reply string) (what string, knownID string)
 }
 
 // Runner is one property's correspondence machinery: Gen produces cases (corpus first),
@@ -68,6 +73,9 @@ type Result struct {
 	Extra         map[string]any    `json:"extra,omitempty"`
 	distinct      map[string]struct{}
 }
+
+// Out is the process's real stdout (os.Stdout is redirected to /dev/null to silence library prints).
+var Out io.Writer = os.Stdout
 
 type Ctx struct {
 	Prop   string
@@ -173,6 +181,9 @@ func (c *Ctx) Flush() {
 		if cs.Oracle != nil {
 			orc, kid = cs.Oracle()
 		}
+		if orc == "" && cs.OracleR != nil {
+			orc, kid = cs.OracleR(replies[i])
+		}
 		if orc != "" {
 			c.Violate(Violation{Kind: "property", What: orc, Replay: []string{cs.Line}, Known: kid})
 		}
@@ -183,7 +194,7 @@ func (c *Ctx) Flush() {
 			}
 		}
 		if c.Verbose {
-			fmt.Printf("%s\n  impl : %s\n  model: %s\n  oracle: %q %s\n", cs.Line, cs.Impl, replies[i], orc, kid)
+			fmt.Fprintf(Out, "%s\n  impl : %s\n  model: %s\n  oracle: %q %s\n", cs.Line, cs.Impl, replies[i], orc, kid)
 		}
 	}
 	c.batch = c.batch[:0]
@@ -277,6 +288,19 @@ func (c *Ctx) CorpusLines() []string {
 		}
 	}
 	return out
+}
+
+// WithTimeout runs f in a goroutine; when it does not return within d the result is "hang"
+// (the goroutine is abandoned – callers should stop issuing that operation).
+func WithTimeout(d time.Duration, f func() string) string {
+	ch := make(chan string, 1)
+	go func() { ch <- Safely(f) }()
+	select {
+	case r := <-ch:
+		return r
+	case <-time.After(d):
+		return "hang"
+	}
 }
 
 // Safely runs f converting a Go panic into the canonical outcome "panic".
